@@ -195,7 +195,8 @@ def _mk_messages(family):
     def ob(c):
         msg = c.choose(HOSTILE_MESSAGES, 'message')
         code = c.choose(CODES, 'code')
-        h = Harness(c, family, user_outcomes=['client_fault'])
+        form = c.choose([dict, list, tuple], 'complex_as') if family in ('json', 'yaml', 'msgpack') else dict
+        h = Harness(c, family, user_outcomes=['client_fault'], prot_kwargs=None if form is dict else dict(complex_as=form))
         h.fault_spec = (code, msg)
         out = h.run_wsgi('valid')
         c.check('callable_returns', out.returned, detail=repr(out))
@@ -203,7 +204,20 @@ def _mk_messages(family):
             return
         body = b''.join(t[1] for t in c.trace if t[0] == 'chunk' and isinstance(t[1], bytes))
         try:
-            doc = faultdoc.decode_fault(family, body)
+            if form is dict:
+                doc = faultdoc.decode_fault(family, body)
+            else:
+                # positional form of a fault: one document [faultcode, faultstring, faultactor, detail]
+                if family == 'json':
+                    import json as _json
+                    d = _json.loads(body.decode('utf8'))
+                elif family == 'yaml':
+                    import yaml
+                    d = yaml.safe_load(body.decode('utf8'))
+                else:
+                    import msgpack
+                    d = msgpack.unpackb(body, raw=False)
+                doc = dict(faultcode=d[0], faultstring=d[1]) if isinstance(d, (list, tuple)) and len(d) == 4 else None
         except Exception as e:
             c.check('response_decodes', False, detail=(repr(e), body[:300]))
             return
